@@ -168,3 +168,42 @@ func (o *Once) Do(f func()) {
 func OnceFunc(f func()) func()                                 { return sync.OnceFunc(f) }
 func OnceValue[T any](f func() T) func() T                     { return sync.OnceValue(f) }
 func OnceValues[T1, T2 any](f func() (T1, T2)) func() (T1, T2) { return sync.OnceValues(f) }
+
+// Pool is sync.Pool behind the seam: the real one keeps per-P free lists and is emptied by the
+// garbage collector, so what Get returns would depend on which OS thread carries the running task
+// and on GC timing - neither of which the simulator decides. Here the free objects are one LIFO
+// list: Get returns the most recently Put object if there is one (the reuse a pool exists for, and
+// the worst case for an object that was put back too early), else New().
+type Pool struct {
+	New func() any
+
+	mu    sync.Mutex
+	items []any
+}
+
+// Get takes the most recently returned object, or makes a new one.
+func (p *Pool) Get() any {
+	p.mu.Lock()
+	if n := len(p.items); n > 0 {
+		x := p.items[n-1]
+		p.items[n-1] = nil
+		p.items = p.items[:n-1]
+		p.mu.Unlock()
+		return x
+	}
+	p.mu.Unlock()
+	if p.New != nil {
+		return p.New()
+	}
+	return nil
+}
+
+// Put returns an object to the pool.
+func (p *Pool) Put(x any) {
+	if x == nil {
+		return
+	}
+	p.mu.Lock()
+	p.items = append(p.items, x)
+	p.mu.Unlock()
+}
